@@ -3,7 +3,7 @@
 //! Private names used: `Server { tokens, peers, signed_peers, immutable_values, mutable_values,
 //! filter }`, `ServerSettings`.
 //! Stand-ins: `lru` (fixed-slot), `vcoll`, `tracing`.
-//! @needs: mutable signed_announce
+//! @needs: mutable signed_announce peers signed_peers
 use super::*;
 use crate::common::kani_h_mutable as mh;
 use crate::common::kani_h_signed_announce as sh;
@@ -398,7 +398,7 @@ fn c03_o1_put_immutable() {
 //@ desc: announce_peer: a peer is recorded only with a valid token, as the sender's own IP with the explicit port, or the sender's source port iff implied_port is Some(true); 203 and nothing recorded otherwise
 //@ bounds: symbolic sender IP/port, announced port, implied_port in {None, Some(false), Some(true)}, token valid or arbitrary (length 0/3/4/5); capacity 1; unwind 26
 //@ stubs: other arms' validators -> flagged cuts; Instant::now; getrandom::fill
-//@ functions: Server::handle_request (announce_peer arm), PeersStore::{add_peer,get_random_peers}, Tokens::validate
+//@ functions: Server::handle_request (announce_peer arm), PeersStore::add_peer, Tokens::validate
 #[kani::proof]
 #[kani::stub(crate::common::mutable::MutableItem::from_dht_message, mh::from_dht_message_cut)]
 #[kani::stub(crate::common::signed_announce::SignedAnnounce::from_dht_request, sh::from_dht_cut)]
@@ -427,12 +427,12 @@ fn c03_o3_announce_peer() {
     };
     let reply = server.handle_request(&rt, &rt, from, req);
     let token_ok = server.tokens.clone().validate(from, &token);
-    let peers = server.peers.get_random_peers(&info_hash);
+    let peers = server.peers.kani_peers(&info_hash);
     if token_ok {
         assert!(is_ack(&reply, rt.id()), "C03.O3 valid announce acknowledged");
         let expect = if implied_port == Some(true) { from } else { SocketAddrV4::new(*from.ip(), port) };
         match &peers {
-            Some(ps) => assert!(ps.len() == 1 && ps[0] == expect, "C03.O3 peer recorded as the sender's IP with explicit or implied port"),
+            Some((n, last)) => assert!(*n == 1 && *last == Some(expect), "C03.O3 peer recorded as the sender's IP with explicit or implied port"),
             None => assert!(false, "C03.O3 acknowledged announce is stored"),
         }
     } else {
@@ -457,7 +457,7 @@ fn c03_o3_announce_peer() {
 //@ desc: announce_signed_peer: the announcement is stored only with a valid token and when from_dht_request accepts it (signature verifies and |now - t| <= 45 s: leaf C03.O4p); 203 and nothing stored otherwise; the stored record carries the request's (k, t, sig)
 //@ bounds: symbolic sender, timestamp (full u64), verdict of the contract, token valid or arbitrary; capacity 1; unwind 66 (32/64-byte array copies)
 //@ stubs: SignedAnnounce::from_dht_request -> contract (leaf C03.O4p); other validators -> flagged cuts; Instant::now; getrandom::fill
-//@ functions: Server::handle_request (announce_signed_peer arm), SignedPeersStore::{add_peer,get_random_peers}
+//@ functions: Server::handle_request (announce_signed_peer arm), SignedPeersStore::add_peer
 #[kani::proof]
 #[kani::stub(crate::common::mutable::MutableItem::from_dht_message, mh::from_dht_message_cut)]
 #[kani::stub(crate::common::signed_announce::SignedAnnounce::from_dht_request, sh::from_dht_contract)]
@@ -487,12 +487,12 @@ fn c03_o4_announce_signed_peer() {
     };
     let reply = server.handle_request(&rt, &rt, from, req);
     let token_ok = server.tokens.clone().validate(from, &token);
-    let peers = server.signed_peers.get_random_peers(&info_hash);
+    let peers = server.signed_peers.kani_peers(&info_hash);
     if token_ok && ok {
         assert!(is_ack(&reply, rt.id()), "C03.O4 valid signed announce acknowledged");
         match &peers {
-            Some(ps) => assert!(ps.len() == 1 && ps[0].timestamp() == t && ends(ps[0].key(), 6) && ends(ps[0].signature(), 8), "C03.O4 stored announcement is the request's"),
-            None => assert!(false, "C03.O4 acknowledged announce is stored"),
+            Some((n, Some(p))) => assert!(*n == 1 && p.timestamp() == t && ends(p.key(), 6) && ends(p.signature(), 8), "C03.O4 stored announcement is the request's"),
+            _ => assert!(false, "C03.O4 acknowledged announce is stored"),
         }
     } else {
         assert!(code_of(&reply) == Some(203), "C03.O4 invalid signed announce answered 203");
@@ -550,7 +550,7 @@ fn c03_o6_filter_veto() {
     assert!(reply.is_none(), "C03.O6 vetoed request gets no reply");
     assert!(unsafe { GATE_CALLS.v } == 1, "C03.O6 filter consulted once");
     assert!(server.immutable_values.len() == 0 && server.mutable_values.len() == 0, "C03.O6 vetoed request stores nothing");
-    assert!(server.peers.get_random_peers(&target).is_none(), "C03.O6 vetoed request stores nothing");
+    assert!(server.peers.kani_info_hashes() == 0 && server.signed_peers.kani_info_hashes() == 0, "C03.O6 vetoed request stores nothing");
     // the secrets were not rotated: the token issued before is still the *current* one
     assert!(server.tokens.generate_token(from) == token, "C03.O6 vetoed request does not rotate secrets");
     assert!(!cut_reached(), "CUT: a validator was reached");
